@@ -725,7 +725,23 @@ fn run_model(
         ties: 0,
         uncertain: 0,
     };
-    let v = replay_model(case, &out, &mut ms);
+    let mut v = replay_model(case, &out, &mut ms);
+    // the exact judge (H2b expiry records) adds what the tie tolerance above lets pass
+    let mut xs = crate::props_simexact::ExactStats::default();
+    for x in crate::props_simexact::replay_exact(case, &out, &mut xs) {
+        if !v.iter().any(|y| y.prop == x.prop) {
+            stats.inc("violation_seen_only_by_exact_judge");
+            v.push(x);
+        }
+    }
+    stats.add("probe.action_timer_expiries", xs.action_expiries);
+    stats.add("probe.internal_timer_expiries", xs.timer_expiries);
+    stats.add("probe.action_cancelled_or_superseded_at_its_due_instant", xs.cancelled_at_due_instant);
+    stats.add("probe.action_fired_then_cancelled_or_superseded_same_instant", xs.fired_then_cancelled_same_instant);
+    stats.add("probe.internal_timer_cancelled_or_changed_at_its_expiry_instant", xs.timer_cancelled_at_expiry_instant);
+    stats.add("probe.internal_timer_expired_then_changed_same_instant", xs.timer_fired_then_changed_same_instant);
+    stats.add("probe.packet_left_while_blocking_active_by_log_position", xs.packet_left_while_blocked);
+    stats.add("probe.packet_left_at_the_instant_blocking_began_or_ended", xs.packet_left_at_block_boundary_instant);
     stats.add("probe.action_superseded_before_firing", ms.superseded);
     stats.add("probe.cancel_actions", ms.cancels);
     stats.add(
@@ -777,9 +793,9 @@ impl SimProp for C16 {
             property: "C16",
             engine: "simsut",
             level: "exploration",
-            rule: "case = trace x delay x optional pps x 1..3 client / 0..2 server machines biased to BlockOutgoing (all four flag combinations, durations from 0, overlapping and back-to-back blocks from several machines) and SendPadding (all four flag combinations) x seeds, unfiltered output; the H2 log is replayed against a per-side blocking model (begin at the action's firing, expiry by the replace / longer-of-two rule, all-allowed-bypass flag, bypass tokens minted by bypass padding actions); BlockingEnd must be reported exactly at the expiry, once, after the begin; a packet leaving strictly inside a blocking window must be bypass-eligible; distinct = hash of the returned (event kind, side) sequence; non-trivial = at least one blocking took place".into(),
+            rule: "case = trace x delay x optional pps x 1..3 client / 0..2 server machines biased to BlockOutgoing (all four flag combinations, durations from 0, overlapping and back-to-back blocks from several machines) and SendPadding (all four flag combinations) x seeds, unfiltered output; the H2 log is replayed against a per-side blocking model (begin at the action's firing, expiry by the replace / longer-of-two rule, all-allowed-bypass flag, bypass tokens minted by bypass padding actions); BlockingEnd must be reported exactly at the expiry, once, after the begin; a packet leaving strictly inside a blocking window must be bypass-eligible; a second, exact judge uses the H2b expiry records: the blocking runs from the log position at which the BlockOutgoing was executed to the BlockingEnd handed to the framework, and every packet that leaves between those two log positions (boundary instants included) must be bypass-eligible; distinct = hash of the returned (event kind, side) sequence; non-trivial = at least one blocking took place".into(),
             assumptions: vec![
-                "a packet is judged only when it leaves strictly inside the window (begin < t < expiry): ties at the same instant are left to the scheduler".into(),
+                "the first model judges a packet only when it leaves strictly inside the window (begin < t < expiry) and suspends judgement when two simultaneous blocking actions with different parameters could both be the cause; the exact judge has neither restriction but mirrors known finding D6 (a zero-duration, non-replacing action on an idle side starts no blocking)".into(),
                 "the action that causes a BlockingBegin is identified by the C17 model (most recent action of that machine)".into(),
                 "bypass / padding flags of packets are read from the returned trace via the H2 flag accessor".into(),
             ],
@@ -831,7 +847,7 @@ impl SimProp for C17 {
             property: "C17",
             engine: "simsut",
             level: "exploration",
-            rule: "case = trace x delay x optional pps x several machines per side with SendPadding / BlockOutgoing timeouts from 0, actions re-issued before they fire, Cancel of each timer kind x seeds, unfiltered output; the H2 log is replayed against a per-machine action-timer model (most recent action, due = issue time + timeout, superseded by a newer action or Cancel{Action|All}); every PaddingSent / BlockingBegin must match the pending action's kind and due time and consume it; no pending action may be overdue once simulated time has moved past it; the H2 log itself is cross-checked by replaying each side's events through a fresh identically seeded framework; distinct = hash of the returned (event kind, side) sequence; non-trivial = at least one action fired and at least one was superseded or cancelled".into(),
+            rule: "case = trace x delay x optional pps x several machines per side with SendPadding / BlockOutgoing timeouts from 0, actions re-issued before they fire, Cancel of each timer kind x seeds, unfiltered output; the H2 log is replayed against a per-machine action-timer model (most recent action, due = issue time + timeout, superseded by a newer action or Cancel{Action|All}); every PaddingSent / BlockingBegin must match the pending action's kind and due time and consume it; no pending action may be overdue once simulated time has moved past it; a second, exact judge uses the H2b expiry records: an action timer may only expire for the action pending for that machine at that log position (not cancelled or superseded, not even at that very instant), exactly at issue time + timeout, with the flags and duration of that action, and every PaddingSent / BlockingBegin reports exactly one such expiry of the same kind and time; the H2 log itself is cross-checked by replaying each side's events through a fresh identically seeded framework; distinct = hash of the returned (event kind, side) sequence; non-trivial = at least one action fired and at least one was superseded or cancelled".into(),
             assumptions: vec![
                 "the actions the simulator acted on are taken from the H2 log and validated against a fresh framework replay (same machines, fractions, seed; virtual clock relative to the first base event)".into(),
             ],
@@ -877,7 +893,7 @@ impl SimProp for C18 {
             property: "C18",
             engine: "simsut",
             level: "exploration",
-            rule: "case = trace x delay x optional pps x machines on both sides biased to UpdateTimer (both replace settings, durations from 0, repeated updates at the same instant) and Cancel of the internal timer x seeds, unfiltered output; the H2 log is replayed against a per-machine internal-timer model (set on replace / no timer running / later expiry); every TimerBegin must follow an UpdateTimer returned at that instant, a TimerBegin is owed whenever the action set or changed the timer, TimerEnd exactly once at the model's expiry and never for a cancelled or superseded timer; distinct = hash of the returned (event kind, side) sequence; non-trivial = at least one TimerEnd was reported".into(),
+            rule: "case = trace x delay x optional pps x machines on both sides biased to UpdateTimer (both replace settings, durations from 0, repeated updates at the same instant) and Cancel of the internal timer x seeds, unfiltered output; the H2 log is replayed against a per-machine internal-timer model (set on replace / no timer running / later expiry); every TimerBegin must follow an UpdateTimer returned at that instant, a TimerBegin is owed whenever the action set or changed the timer, TimerEnd exactly once at the model's expiry and never for a cancelled or superseded timer; a second, exact judge uses the H2b expiry records: the internal timer may only expire if it is running at that log position, exactly at its expiry, and every TimerEnd reports exactly one such expiry; distinct = hash of the returned (event kind, side) sequence; non-trivial = at least one TimerEnd was reported".into(),
             assumptions: vec![
                 "an UpdateTimer that does not change the timer (no replace, not later) permits but does not require a TimerBegin".into(),
             ],
